@@ -1,23 +1,24 @@
 #!/bin/bash
-# mutant.sh <patch> <ID> [<ID>...]   apply a property-breaking patch to /repo, run the baseline and the
-# given checks (quick), and undo the patch. Prints one summary line per check.
+# mutant.sh <patch> <ID> [<ID>...]   apply a property-breaking patch to a scratch worktree of /repo
+# (git worktree of HEAD, outside /repo and /verif), run the 56-test baseline and the given checks
+# (quick) against that copy, and remove the worktree. /repo itself and /verif/evidence are not touched.
 # env: TIER=quick|thorough  SKIP_BASELINE=1
-P="$1"; shift
-cd /repo || exit 2
-if ! git diff --quiet; then echo "repo has uncommitted changes" >&2; exit 2; fi
-git apply "$P" || { echo "patch does not apply: $P" >&2; exit 2; }
-# keep the evidence of the unchanged tree: checks run against a mutant must not replace it
-EVB=$(mktemp -d); cp -a /verif/evidence/. "$EVB"/ 2>/dev/null
-trap 'git -C /repo checkout -- . ; git -C /repo clean -fdq; rm -rf /verif/evidence; mkdir -p /verif/evidence; cp -a "$EVB"/. /verif/evidence/; rm -rf "$EVB"' EXIT
+P="$(readlink -f "$1")"; shift
 export GOFLAGS=-mod=mod GOPROXY=off GOSUMDB=off GOTOOLCHAIN=local
-if ! go build ./... 2>/tmp/mut-build.log; then echo "MUTANT $(basename $P): does not compile"; head -5 /tmp/mut-build.log; exit 3; fi
+W=$(mktemp -d /tmp/mut-XXXXXX); rmdir "$W"
+OUT=$(mktemp -d /tmp/mutout-XXXXXX)
+git -C /repo worktree add -q --detach "$W" HEAD || exit 2
+trap 'git -C /repo worktree remove --force "$W" 2>/dev/null; rm -rf "$OUT"' EXIT
+( cd "$W" && git apply "$P" ) || { echo "patch does not apply: $P" >&2; exit 2; }
+if ! ( cd "$W" && go build ./... ) 2>"$OUT/build.log"; then echo "MUTANT $(basename $P): does not compile"; head -5 "$OUT/build.log"; exit 3; fi
 if [ -z "${SKIP_BASELINE:-}" ]; then
-  b=$(/verif/tools/baseline.sh /repo | head -1)
+  b=$(/verif/tools/baseline.sh "$W" | head -1)
   echo "MUTANT $(basename $P): $b"
 fi
 for id in "$@"; do
-  out=$(/verif/run.sh "$id" "${TIER:-quick}" 2>&1); rc=$?
+  out=$(VERIF_REPO="$W" VERIF_OUT_DIR="$OUT" /verif/run.sh "$id" "${TIER:-quick}" 2>&1); rc=$?
   nv=$(echo "$out" | grep -c '^VIOLATION')
   echo "MUTANT $(basename $P): check $id exit=$rc violations=$nv"
   echo "$out" | grep -A1 '^VIOLATION' | grep 'what:' | head -4
+  [ $rc -eq 2 ] && echo "$out" | grep -i internal | head -3
 done
